@@ -59,9 +59,8 @@ func nestedScopes(name string, tier string, boundary func(x *apix.Exec, kind str
 		n, depth = 6, 3
 	}
 	cs := cfgsAcct(tier)
-	if tier != "thorough" && name != "c07-nested" {
-		// the full configuration product of this scope belongs to C07's quick tier; the other properties that reuse the
-		// scope take two configurations in quick and all of them in thorough
+	if tier != "thorough" {
+		// quick: array backend with a persisted freelist, hash-map backend without; thorough: the full product
 		cs = []apix.Cfg{cs[0], cs[3]}
 	}
 	scs := mk(name, seeds, cs, n, 1, nestedAlphabet([]string{"p", "q"}, depth, true), boundary)
@@ -79,8 +78,8 @@ func init() {
 // C07: page accounting after every commit, rollback and reopen.
 func C07(tier string) int {
 	return RunHX(HXCheck{
-		Prop: "C07", Level: "model_checking", Scopes: []string{"c07-life", "c07-nested"},
-		Rule: "breadth-first enumeration of all programs within the bound (write transactions with page-freeing bodies, nested bucket create/delete/move, readers of different ages, rollbacks, reopen with other freelist backend / sync setting) from each seed and configuration; after every commit, rollback and reopen the independent decoder boltfmt must classify every page below the high-water mark as exactly one of meta / freelist / reachable once / listed free once, with ordered keys and in-page elements, and Stats, Tx.Page and Tx.Check must agree; a state is a distinct exact state key",
+		Prop: "C07", Level: "model_checking", Scopes: []string{"c07-life", "c07-nested", "c07-fault"},
+		Rule: "breadth-first enumeration of all programs within the bound (write transactions with page-freeing bodies, nested bucket create/delete/move, readers of different ages, rollbacks, reopen with other freelist backend / sync setting) from each seed and configuration; after every commit, rollback, failed commit (scope c07-fault: every single I/O failure of every commit, with a reader held across) and reopen the independent decoder boltfmt must classify every page below the high-water mark as exactly one of meta / freelist / reachable once / listed free once, with ordered keys and in-page elements, and Stats, Tx.Page and Tx.Check must agree; a state is a distinct exact state key",
 		Assumptions: []string{"boltfmt implements the published version-2 layout (cross-checked against the API dump and the reference model on every state)",
 			"bounded alphabets; page sizes 1024 (quick) and 1024/4096/16384 (thorough)"},
 		Quick: 100 * time.Second, Thorough: 25 * time.Minute,
